@@ -4,4 +4,5 @@ set -e
 here=$(dirname "$(readlink -f "$0")")
 cd "$here"
 for t in tools/translate/*2lean.py; do /venv/bin/python "$t" /repo || true; done
+/venv/bin/python tools/mkroot.py
 cd lean && lake build I18n driver
